@@ -172,6 +172,7 @@ Proof.
   - apply sub_nil.
   - apply sub_nil.
   - apply sub_nil.
+  - apply sub_nil.
 Qed.
 
 Lemma view_default : forall o, view o (default_val o) = [].
@@ -408,17 +409,19 @@ Lemma run_serial_app : forall a b s, run_serial (a ++ b) s = run_serial b (run_s
 Proof. intros. unfold run_serial. apply fold_left_app. Qed.
 
 Lemma serial_cp_ids : forall ops s w b,
+  ~ In (ResetCp w b) ops ->
   cp_ids (run_serial ops s (OCp w b)) = cp_ids (s (OCp w b)) ++ log (OCp w b) ops.
 Proof.
-  induction ops as [|k ops IH]; intros s w b.
+  induction ops as [|k ops IH]; intros s w b NR.
   - unfold log. cbn. rewrite app_nil_r. reflexivity.
   - unfold run_serial. cbn [fold_left]. fold (run_serial ops (serial_step s k)).
-    rewrite IH, log_cons. unfold serial_step.
+    rewrite IH by (intro H; apply NR; right; assumption). rewrite log_cons. unfold serial_step.
     destruct (obj_eqb (obj_of k) (OCp w b)) eqn:E.
     + apply obj_eqb_eq in E. rewrite <- E. rewrite upd_same.
       destruct k; cbn [obj_of] in E; try discriminate; cbn [apply_op appended obj_of]; unfold cp_ids; cbn [as_cp].
       * rewrite prune_ids, map_app. cbn [map]. rewrite <- app_assoc. reflexivity.
       * reflexivity.
+      * exfalso. apply NR. left. inversion E. reflexivity.
     + apply obj_eqb_neq in E. rewrite upd_other by congruence. reflexivity.
 Qed.
 
@@ -468,14 +471,15 @@ Lemma atomic_loses_nothing : forall progs sched s0,
   atomic_windows progs sched ->
   let final := run progs sched s0 in
   let ops := writes_of (trace_of progs sched) in
-  (forall w b, cp_ids (final (OCp w b)) = cp_ids (s0 (OCp w b)) ++ log (OCp w b) ops) /\
+  (forall w b, ~ In (ResetCp w b) ops ->
+               cp_ids (final (OCp w b)) = cp_ids (s0 (OCp w b)) ++ log (OCp w b) ops) /\
   (forall w, firstn max_events (as_ev (final (ORw w)))
              = firstn max_events (rev (log (ORw w) ops) ++ as_ev (s0 (ORw w)))) /\
   (forall k n, In (NotesAdd k n) ops -> In k (map fst (as_notes (final ONotes)))).
 Proof.
   intros progs sched s0 H final ops. unfold final, ops.
   split; [| split].
-  - intros w b. rewrite (serial_if_atomic _ _ _ H). apply serial_cp_ids.
+  - intros w b NR. rewrite (serial_if_atomic _ _ _ H). apply serial_cp_ids. assumption.
   - intro w. rewrite (serial_if_atomic _ _ _ H). apply serial_events.
   - intros k n Hin. rewrite (serial_if_atomic _ _ _ H). eapply serial_notes_key. eassumption.
 Qed.
@@ -730,6 +734,15 @@ Proof.
     destruct Hin.
 Qed.
 
+Lemma checkpoint_run_no_reset : forall w b x st k,
+  In st (checkpoint_run w b x) -> is_write st = Some k -> forall w' b', k <> ResetCp w' b'.
+Proof.
+  intros w b x st k Hin Hw w' b'. unfold checkpoint_run, append_checkpoint_prog, rmw in Hin.
+  destruct append_checkpoint_locked; cbn [app] in Hin;
+    repeat (destruct Hin as [<- | Hin]; [cbn [is_write] in Hw; try discriminate; inversion Hw; discriminate |]);
+    destruct Hin.
+Qed.
+
 (* two `git-ai checkpoint` runs in DIFFERENT worktrees: every interleaving is serialisable and
    both checkpoints are kept *)
 Lemma checkpoints_in_two_worktrees : forall w1 b1 x1 w2 b2 x2 sched s0,
@@ -750,7 +763,12 @@ Proof.
   - intros t1 t2 p1 p2 Hn H1 H2. destruct t1 as [|[|t1]], t2 as [|[|t2]]; cbn in H1, H2;
       try (destruct t1; discriminate); try (destruct t2; discriminate); try congruence.
   - split; [exact S |]. destruct (atomic_loses_nothing progs sched s0 A) as [C _].
-    split; apply C.
+    assert (NR : forall w b, ~ In (ResetCp w b) (writes_of (trace_of progs sched))).
+    { intros w b Hin. apply writes_of_in in Hin as [t [st [Hin Hw]]].
+      apply trace_in in Hin as [p [Hp Hst]].
+      destruct t as [|[|t]]; cbn in Hp; [| | destruct t; discriminate]; inversion Hp; subst p;
+        exact (checkpoint_run_no_reset _ _ _ _ _ Hst Hw w b eq_refl). }
+    split; apply C; apply NR.
 Qed.
 
 (* ------------------------------------------------------------------ where the journals live *)
@@ -861,7 +879,8 @@ Lemma known_exact : forall progs sched s0,
   let final := run progs sched s0 in
   let ops := writes_of (trace_of progs sched) in
   (forall o, final o = run_serial ops s0 o) /\
-  (forall w b, cp_ids (final (OCp w b)) = cp_ids (s0 (OCp w b)) ++ log (OCp w b) ops) /\
+  (forall w b, ~ In (ResetCp w b) ops ->
+               cp_ids (final (OCp w b)) = cp_ids (s0 (OCp w b)) ++ log (OCp w b) ops) /\
   (forall w, firstn max_events (as_ev (final (ORw w)))
              = firstn max_events (rev (log (ORw w) ops) ++ as_ev (s0 (ORw w)))) /\
   (forall k n, In (NotesAdd k n) ops -> In k (map fst (as_notes (final ONotes)))).
@@ -976,4 +995,130 @@ Lemma torn_blob :
   as_blob (shared c (OBlob 0 7 5)) = [1; 2] /\
   cp_ids (shared c (OCp 0 7)) = [1; 2] /\
   as_blob (reg c 1%nat (OBlob 0 7 5)) = [].
+Proof. vm_compute. intuition discriminate. Qed.
+
+(* ------------------------------------------------------------------ a checkpoint against the NEW head while the commit is in flight *)
+Ltac each_step Hin tac :=
+  repeat (destruct Hin as [<- | Hin]; [tac |]); try destruct Hin.
+
+(* what the post-commit program touches - PROVIDED the source applies nothing but
+   write_initial_attributions to the working log of the new commit *)
+Lemma commit_prog_touches : forall w b c e n v st o,
+  post_commit_resets_new_log = false ->
+  In st (commit_prog w b c e n v) -> touches st = Some o ->
+  o = ORw w \/ o = OCp w b \/ o = ONotes \/ o = OInit w c.
+Proof.
+  intros w b c e n v st o Hf Hin Ht.
+  unfold commit_prog, seed_new_log, append_event_prog, notes_add_prog, rmw in Hin. rewrite Hf in Hin.
+  destruct append_event_locked, post_commit_refresh_locked, notes_add_locked; cbn [app] in Hin;
+    each_step Hin ltac:(cbn [touches obj_of] in Ht; try discriminate; inversion Ht; auto).
+Qed.
+
+Lemma commit_prog_no_reset : forall w b c e n v st k,
+  post_commit_resets_new_log = false ->
+  In st (commit_prog w b c e n v) -> is_write st = Some k -> forall w' b', k <> ResetCp w' b'.
+Proof.
+  intros w b c e n v st k Hf Hin Hw w' b'.
+  unfold commit_prog, seed_new_log, append_event_prog, notes_add_prog, rmw in Hin. rewrite Hf in Hin.
+  destruct append_event_locked, post_commit_refresh_locked, notes_add_locked; cbn [app] in Hin;
+    each_step Hin ltac:(cbn [is_write] in Hw; try discriminate; inversion Hw; discriminate).
+Qed.
+
+Lemma commit_prog_blocks : forall w b c e n v, blocks (commit_prog w b c e n v) = true.
+Proof.
+  intros. unfold commit_prog, seed_new_log, append_event_prog, notes_add_prog, rmw.
+  destruct append_event_locked, post_commit_refresh_locked, notes_add_locked, post_commit_resets_new_log;
+    cbn [app blocks]; rewrite ?obj_eqb_refl; reflexivity.
+Qed.
+
+Lemma checkpoint_run_touches : forall w b x st o,
+  In st (checkpoint_run w b x) -> touches st = Some o -> o = OCp w b.
+Proof.
+  intros w b x st o Hin Ht. unfold checkpoint_run, append_checkpoint_prog, rmw in Hin.
+  destruct append_checkpoint_locked; cbn [app] in Hin;
+    each_step Hin ltac:(cbn [touches obj_of] in Ht; try discriminate; inversion Ht; reflexivity).
+Qed.
+
+(* git has moved HEAD to c, the post-commit step of the commit b -> c is still running, another actor
+   checkpoints against c: under EVERY interleaving the windows are atomic and the checkpoint is kept
+   in the working log of c - as long as post_commit does not reset that log *)
+Lemma new_head_checkpoint_kept_if : forall w b c e n v x sched s0,
+  post_commit_resets_new_log = false -> b <> c ->
+  let progs := [commit_prog w b c e n v; checkpoint_run w c x] in
+  let final := run progs sched s0 in
+  let ops := writes_of (trace_of progs sched) in
+  atomic_windows progs sched /\
+  cp_ids (final (OCp w c)) = cp_ids (s0 (OCp w c)) ++ log (OCp w c) ops /\
+  (length (thread_steps 1 (trace_of progs sched)) = length (checkpoint_run w c x) ->
+   In (cp_id x) (cp_ids (final (OCp w c)))).
+Proof.
+  intros w b c e n v x sched s0 Hf Hbc progs final ops.
+  assert (A : atomic_windows progs sched).
+  { apply isolated_stale_free.
+    - intros t1 t2 p1 p2 s1 s2 o Hne H1 H2 I1 I2 T1 T2.
+      assert (X : forall sa sb, In sa (commit_prog w b c e n v) -> In sb (checkpoint_run w c x) ->
+                    touches sa = Some o -> touches sb = Some o -> False).
+      { intros sa sb Ia Ib Ta Tb. apply (checkpoint_run_touches _ _ _ _ _ Ib) in Tb. subst o.
+        destruct (commit_prog_touches _ _ _ _ _ _ _ _ Hf Ia Ta) as [E | [E | [E | E]]];
+          try discriminate. inversion E. congruence. }
+      destruct t1 as [|[|t1]], t2 as [|[|t2]]; cbn in H1, H2;
+        try (destruct t1; discriminate); try (destruct t2; discriminate); try congruence;
+        inversion H1; inversion H2; subst p1 p2.
+      + exact (X s1 s2 I1 I2 T1 T2).
+      + exact (X s2 s1 I2 I1 T2 T1).
+    - intros p [<- | [<- | []]]; [apply commit_prog_blocks | apply checkpoint_run_blocks]. }
+  assert (NR : ~ In (ResetCp w c) ops).
+  { intro Hin. apply writes_of_in in Hin as [t [st [Hin Hw]]].
+    apply trace_in in Hin as [p [Hp Hst]].
+    destruct t as [|[|t]]; cbn in Hp; [| | destruct t; discriminate]; inversion Hp; subst p.
+    - exact (commit_prog_no_reset _ _ _ _ _ _ _ _ Hf Hst Hw w c eq_refl).
+    - exact (checkpoint_run_no_reset _ _ _ _ _ Hst Hw w c eq_refl). }
+  destruct (atomic_loses_nothing progs sched s0 A) as [C _].
+  split; [exact A |]. split; [apply C; exact NR |].
+  intro Hlen. fold final ops in C. rewrite (C w c NR). apply in_or_app. right.
+  (* the checkpoint thread ran to completion: its write is in the trace *)
+  destruct (trace_thread_prefix sched progs 1%nat (checkpoint_run w c x) eq_refl) as [rest Hr].
+  assert (rest = []).
+  { apply (f_equal (@length step)) in Hr. rewrite app_length in Hr. fold progs in Hr.
+    destruct rest; [reflexivity | cbn [length] in Hr; lia]. }
+  subst rest. rewrite app_nil_r in Hr.
+  assert (W : exists k, In k ops /\ obj_of k = OCp w c /\ In (cp_id x) (appended k)).
+  { assert (Hs : exists st, In st (thread_steps 1 (trace_of progs sched)) /\
+                  (st = SWrite (AppendCp w c x) \/ st = SAtomic (AppendCp w c x))).
+    { fold progs. rewrite <- Hr. unfold checkpoint_run, append_checkpoint_prog, rmw.
+      destruct append_checkpoint_locked; cbn [app].
+      - exists (SAtomic (AppendCp w c x)). split; [right; right; left; reflexivity | right; reflexivity].
+      - exists (SWrite (AppendCp w c x)). split; [right; right; right; left; reflexivity | left; reflexivity]. }
+    destruct Hs as [st [Hin Hst]]. unfold thread_steps in Hin. apply in_map_iff in Hin as [[t st'] [E Hin]].
+    cbn [snd] in E. subst st'. apply filter_In in Hin as [Hin _].
+    exists (AppendCp w c x). split; [| split; [reflexivity | left; reflexivity]].
+    unfold ops. clear -Hin Hst. induction (trace_of progs sched) as [|ev tr IH]; [destruct Hin |].
+    cbn [writes_of]. destruct Hin as [-> | Hin].
+    - cbn [snd]. destruct Hst as [-> | ->]; cbn [is_write]; left; reflexivity.
+    - destruct (is_write (snd ev)); [right |]; apply IH; assumption. }
+  destruct W as [k [Hk [Ho Ha]]]. unfold log. apply in_flat_map. exists k. split; [| exact Ha].
+  apply filter_In. split; [exact Hk | apply obj_eqb_eq; exact Ho].
+Qed.
+
+(* ... and the unchanged tree does not (this proof stops type-checking when the translator reports a
+   reset of the new working log in post_commit) *)
+Lemma new_head_checkpoint_kept : forall w b c e n v x sched s0,
+  b <> c ->
+  let progs := [commit_prog w b c e n v; checkpoint_run w c x] in
+  let final := run progs sched s0 in
+  let ops := writes_of (trace_of progs sched) in
+  atomic_windows progs sched /\
+  cp_ids (final (OCp w c)) = cp_ids (s0 (OCp w c)) ++ log (OCp w c) ops /\
+  (length (thread_steps 1 (trace_of progs sched)) = length (checkpoint_run w c x) ->
+   In (cp_id x) (cp_ids (final (OCp w c)))).
+Proof. intros w b c e n v x sched s0. exact (new_head_checkpoint_kept_if w b c e n v x sched s0 eq_refl). Qed.
+
+(* the hypothesis is needed: were the new working log reset before it is seeded, a checkpoint made
+   against the new head in the meantime would be erased without any window overlapping *)
+Lemma reset_would_lose :
+  let progs := wit_reset_progs in
+  let sched := sched_ckpt_then_seed in
+  let final := run progs sched empty_store in
+  length (trace_of progs sched) = 6%nat /\ ~ Known_C11 progs sched /\
+  log (OCp 0 101) (writes_of (trace_of progs sched)) = [2] /\ cp_ids (final (OCp 0 101)) = [].
 Proof. vm_compute. intuition discriminate. Qed.
